@@ -39,7 +39,7 @@ INFO = dict(
          'time-out of a queued request = what the real ClientTimeoutSink does: posting TimeoutError into its sink stack'],
   assumptions=['A1', 'pre-states = those satisfying the stated invariant (checked inductive); min_watermark <= max_watermark, max_watermark >= 1'],
 )
-EXPECT_COVERS = ['timeout-while-connection-opening', 'arrival-while-connection-opening', 'arrive-cached', 'arrive-new', 'arrive-queued', 'arrive-max-waiters', 'arrive-dead-cached-discarded',
+EXPECT_COVERS = ['real-connection-dies-with-queued-waiter', 'timeout-while-connection-opening', 'arrival-while-connection-opening', 'arrive-cached', 'arrive-new', 'arrive-queued', 'arrive-max-waiters', 'arrive-dead-cached-discarded',
                  'release-to-waiter', 'release-skips-timed-out', 'release-cached', 'release-closed', 'release-dead-closes-pool',
                  'hist-two-completions-one-slice']
 
@@ -143,6 +143,7 @@ def jobs(tier):
         for k in range(w):
           js.append(dict(name='timeout-a%d-b%d-w%d-k%d' % (a, b, w, k), op='timeout', a=a, b=b, w=w, k=k, hi=hi, cost=1))
   js.append(dict(name='open', op='open', hi=hi, cost=1))
+  js.append(dict(name='real-transport-dies-with-waiter', op='realfault', cost=200))
   js.append(dict(name='slow-open-n3', op='slowopen', n=3, hi=2 if tier == 'quick' else hi, cost=3000, shards=16, shard_depth=4))
   kk = 6 if tier == 'quick' else 10
   js.append(dict(name='history-k%d' % kk, op='history', k=kk, hi=3, cost=5000,
@@ -179,6 +180,8 @@ def make_body(job):
       return history(job)
     if op == 'slowopen':
       return slow_open(job)
+    if op == 'realfault':
+      return real_fault(job)
     if op == 'open':
       mn, mx, ql = config(job['hi'])
       pool, prov = new_pool(mn, mx, ql)
@@ -425,3 +428,35 @@ def slow_open(job):
     else:
       check('slowopen.each-request-one-outcome', len(served) + len(queued) + len([g for g in t.got if getattr(g[1], 'error', None) is not None]) >= 1 and len(t.got) <= 1)
   check('no-greenlet-error', not vtime.ERRORS)
+
+
+def real_fault(job):
+  """the real pool over the REAL serial transport (public Thrift builder, max_watermark=1): a call is in flight, a second
+  one waits in the pool queue, the server drops the connection at a symbolic instant"""
+  from symex.values import fresh_real
+  from symex import net as netm
+  from . import stacks
+  from scales.thrift import Thrift
+  from scales.constants import SinkRole
+  e = stacks.setup()
+  d = fresh_real('server_drops_connection_after', 0, 5)
+  script = netm.Script(plan=lambda i, p: ('close', d) if i == 0 else ('reply', 0))
+  e.net.endpoint('a', 1, peer=lambda s: netm.ThriftPeer(s, script), connect_delay=0.1)
+  b = Thrift.NewBuilder(stacks.Hello.Iface).SetUri('tcp://a:1').SetTimeout(30)
+  c = b.ReplaceRole(SinkRole.Pool, WatermarkPoolSink.Builder(max_watermark=1)).Build()
+  a1 = c.hi_async('A')
+  g = fresh_real('second_call_at', 0, 5)
+  if hdecide(g > 0): gevent.sleep(g)
+  a2 = c.hi_async('B')
+  gevent.sleep(40)
+  ev1 = stacks.events(a1); ev2 = stacks.events(a2)
+  check('real.first-fails-once', len(ev1) == 1 and ev1[0][1] == 'error')
+  check('real.second-completes-once', len(ev2) == 1)
+  if len(ev2) == 1 and bool(g < d):
+    # B was waiting when the connection died: it is failed with the service-closed error, not started on the dead connection
+    cover('real-connection-dies-with-queued-waiter')
+    inner = getattr(ev2[0][2], 'inner_exception', ev2[0][2])
+    check('real.waiter-failed-with-service-closed', ev2[0][1] == 'error' and isinstance(inner, ServiceClosedError))
+  check('real.second-request-never-on-dead-connection', len([r for r in script.requests if r[3] == ['B']]) <= 1)
+  check('no-greenlet-error', not vtime.ERRORS)
+  c.DispatcherClose()
